@@ -696,6 +696,7 @@ esl_gumbel_FitCensored(double *x, int n, int z, double phi, double *ret_mu, doub
       /* First bracket the root */
       left  = 0.;		               /* we know that's the left bound */
       right = eslCONST_PI / sqrt(6.*variance); /* start from here, move "right"... */
+      if (! (right > 0.)) { status = eslENORESULT; goto FAILURE; } /* infinite or NaN variance: doubling 0 would never bracket */
       lawless422(x, n, z, phi, right, &fx, &dfx);
       while (fx > 0.)
 	{
